@@ -44,7 +44,8 @@ THEOREMS = ["C20_sound", "C20_sound_general", "C20_ret_sound", "C20_caller_untou
             "C20_trace_acceptor_sound", "C20_xexec_is_exec", "C20_accepted_is_clean",
             "C20_read", "C20_write", "C20_to_csv", "C20_adhoc", "C20_open_with_codecs", "C20_open_file",
             "C20_read_exec", "C20_write_exec", "C20_to_csv_exec",
-            "C20_caller_untouched_write", "C20_caller_untouched_to_csv", "C20_no_other_open_sites"]
+            "C20_caller_untouched_write", "C20_caller_untouched_to_csv", "C20_no_other_open_sites",
+            "C20_api_returns_nothing", "C20_caller_untouched_write_exec", "C20_caller_untouched_to_csv_exec"]
 ASSUMPTIONS = [
     "translator completeness: every statement of the six functions that can raise is rendered as MayRaise/Open/Close "
     "(all statements other than assignments of names/constants are); NameError/MemoryError/KeyboardInterrupt between two "
